@@ -377,7 +377,15 @@ func runC15(p *an.Prog, r *an.Run, tier string) {
 	}
 
 	// ---- a panic the library raises on the codec's behalf (gorilla: repeated read on a failed connection)
-	checkReadErrorTerminal(p, r)
+	checkGorillaSingleWriter(p, r)
+	// ---- a flood of unsolicited replies wedges nothing but (at worst) the flooder's own connection: every reply is
+	// handed to a one-slot channel made for that id on that connection (shared with C14.async-dispatch / C09): an
+	// unbuffered or recycled channel blocks the read loop, or delivers the flooder's message to another connection's call
+	if gpc := p.Method("jsonrpc2", "Remote", "getPendingChan"); gpc != nil {
+		r.Check(replyChanBuffered(gpc), "reply-slot", an.FuncName(gpc), gpc.Pos(), "each pending id gets a one-slot channel made for it", "the reply channel of %s is not a buffered channel made for the id (make(chan Message, n>=1) in this function): a reply nobody waits for blocks the read loop, or lands in another call's slot", an.FuncName(gpc))
+	} else {
+		r.Undec("reply-slot", "jsonrpc2.Remote.getPendingChan", token.NoPos, "anchor not found")
+	}
 
 	// ---- bounds
 	sites, raw, err := unprovenBounds(p.RepoDir)
@@ -527,6 +535,9 @@ func runC15(p *an.Prog, r *an.Run, tier string) {
 					nAssert++
 					if an.NormRecv(an.FuncName(fn)) == "(jsonrpc2.Method).Call" && isErrorIface(x.AssertedType) {
 						return // reply[ErrPos].Interface().(error): the result's static type was checked to be error at registration
+					}
+					if poolOnlyHolds(p, x.X, x.AssertedType) {
+						return // pool.Get().(*T) on a package-level pool whose New and every Put supply a *T
 					}
 					bad = append(bad, "unchecked type assertion to "+x.AssertedType.String()+" in "+an.FuncName(fn)+" at "+p.Pos(x.Pos())+" panics when the dynamic type differs")
 				}
@@ -1274,6 +1285,64 @@ func onlyConstructedBy(p *an.Prog, fv *types.Var) bool {
 	return ok
 }
 
+// poolOnlyHolds: v is the result of Get on a package-level sync.Pool, and everything that can be in that pool has the
+// type t: its New function (a function literal in the pool's initialiser) returns a t, and every Put on the same pool in
+// the repository is given a t.
+func poolOnlyHolds(p *an.Prog, v ssa.Value, t types.Type) bool {
+	c, ok := v.(*ssa.Call)
+	if !ok || !an.IsMethod(an.CallObj(c), "sync", "Pool", "Get") || len(c.Call.Args) == 0 {
+		return false
+	}
+	g, ok := c.Call.Args[0].(*ssa.Global)
+	if !ok {
+		return false
+	}
+	okAll, nSrc := true, 0
+	judge := func(x ssa.Value) {
+		nSrc++
+		if mi, isMI := x.(*ssa.MakeInterface); isMI {
+			if !types.Identical(mi.X.Type(), t) {
+				okAll = false
+			}
+			return
+		}
+		okAll = false
+	}
+	for _, fn := range p.Repo {
+		an.AllInstrs(fn, func(in ssa.Instruction) {
+			switch x := in.(type) {
+			case ssa.CallInstruction:
+				if an.IsMethod(an.CallObj(x), "sync", "Pool", "Put") && len(x.Common().Args) == 2 && x.Common().Args[0] == ssa.Value(g) {
+					judge(x.Common().Args[1])
+				}
+			case *ssa.Store:
+				// pool.New = func() interface{} { return ... } in the package initialiser
+				if fa, isFA := x.Addr.(*ssa.FieldAddr); isFA && fa.X == ssa.Value(g) {
+					if fv := an.FieldOf(fa); fv != nil && fv.Name() == "New" {
+						var nf *ssa.Function
+						switch nv := x.Val.(type) {
+						case *ssa.Function:
+							nf = nv
+						case *ssa.MakeClosure:
+							nf, _ = nv.Fn.(*ssa.Function)
+						}
+						if nf == nil {
+							okAll = false
+							return
+						}
+						an.AllInstrs(nf, func(in2 ssa.Instruction) {
+							if ret, isRet := in2.(*ssa.Return); isRet && len(ret.Results) == 1 {
+								judge(ret.Results[0])
+							}
+						})
+					}
+				}
+			}
+		})
+	}
+	return okAll && nSrc > 0
+}
+
 func checkReplyID(p *an.Prog, r *an.Run) {
 	h := p.Method("jsonrpc2", "Server", "Handle")
 	hr := requestHandlerOf(p)
@@ -1287,8 +1356,8 @@ func checkReplyID(p *an.Prog, r *an.Run) {
 	var msgAlloc *ssa.Alloc
 	an.AllInstrs(h, func(in ssa.Instruction) {
 		ret, ok := in.(*ssa.Return)
-		if !ok {
-			return
+		if !ok || (h.Recover != nil && ret.Block() == h.Recover) {
+			return // the synthetic return after a recovered panic (a function with a defer has one)
 		}
 		v := an.RetResults(ret)[0]
 		al, ok := v.(*ssa.Alloc)
